@@ -35,6 +35,9 @@ func convertTWCC(feedback *rtcp.TransportLayerCC) []acknowledgement {
 						ecn:            0,
 					})
 				case rtcp.TypeTCCPacketReceivedSmallDelta, rtcp.TypeTCCPacketReceivedLargeDelta:
+					if recvDeltaIndex >= len(feedback.RecvDeltas) {
+						return acks
+					}
 					delta := feedback.RecvDeltas[recvDeltaIndex]
 					nextTimestamp = nextTimestamp.Add(time.Duration(delta.Delta) * time.Microsecond)
 					recvDeltaIndex++
@@ -66,6 +69,9 @@ func convertTWCC(feedback *rtcp.TransportLayerCC) []acknowledgement {
 						ecn:            0,
 					})
 				case rtcp.TypeTCCPacketReceivedSmallDelta, rtcp.TypeTCCPacketReceivedLargeDelta:
+					if recvDeltaIndex >= len(feedback.RecvDeltas) {
+						return acks
+					}
 					delta := feedback.RecvDeltas[recvDeltaIndex]
 					nextTimestamp = nextTimestamp.Add(time.Duration(delta.Delta) * time.Microsecond)
 					recvDeltaIndex++
